@@ -172,6 +172,7 @@ func (l *panicLog) First() string {
 // ---------------------------------------------------------------- handler under test
 
 type env struct {
+	eps     []receive.Endpoint
 	h       *receive.Handler
 	url     string // http://127.0.0.1:port
 	peers   []*fakePeer
@@ -187,7 +188,8 @@ type envOpts struct {
 	maxConcurrency int // 0 = no write gate
 	workers        uint
 	forwardTimeout time.Duration
-	tls            bool // serve HTTPS (Go then speaks HTTP/2, where a client's stream reset cancels the request context at once)
+	mode           receive.ReceiverMode // default RouterOnly
+	tls            bool                 // serve HTTPS (Go then speaks HTTP/2, where a client's stream reset cancels the request context at once)
 }
 
 var (
@@ -243,9 +245,12 @@ func newEnv(t testing.TB, o envOpts) *env {
 	if o.forwardTimeout == 0 {
 		o.forwardTimeout = 60 * time.Second
 	}
+	if o.mode == "" {
+		o.mode = receive.RouterOnly
+	}
 	var lastErr error
 	for attempt := 0; attempt < 20; attempt++ {
-		e := &env{peers: ps, reg: prometheus.NewRegistry(), gateReg: prometheus.NewRegistry(), plog: &panicLog{}, runErr: make(chan error, 1)}
+		e := &env{eps: eps, peers: ps, reg: prometheus.NewRegistry(), gateReg: prometheus.NewRegistry(), plog: &panicLog{}, runErr: make(chan error, 1)}
 		var cfg limitsContent
 		if o.maxConcurrency > 0 {
 			cfg = limitsContent(fmt.Sprintf("write:\n  global:\n    max_concurrency: %d\n", o.maxConcurrency))
@@ -277,7 +282,7 @@ func newEnv(t testing.TB, o envOpts) *env {
 			ReplicaHeader:           receive.DefaultReplicaHeader,
 			Endpoint:                "verif-router:0", // non-empty, not a peer: nothing is "local"
 			ReplicationFactor:       uint64(o.rf),
-			ReceiverMode:            receive.RouterOnly,
+			ReceiverMode:            o.mode,
 			DialOpts:                []grpc.DialOption{grpc.WithTransportCredentials(insecure.NewCredentials())},
 			ForwardTimeout:          o.forwardTimeout,
 			MaxBackoff:              time.Millisecond,
